@@ -527,7 +527,7 @@ PROPERTIES["C14"] = {
     "level_note": "In part (IR level): `the text returned by the generated converter is a valid Go expression that rebuilds v` is template-rendered text judged by the Go compiler and is outside "
                   "the claim. Bounds as C17 (Foo with 2 fields over 7 kinds).",
     "bounds": {"builders": "as C17", "rules before conversion": "none or one of 6 option rules applied to every option"},
-    "runs": [Run("veneers", ["./internal/zzverif/hveneers"], VENEERS_HARNESS, ["VerifC14ConverterMapping", "VerifC14UnionLists", "VerifC14BuilderChoice"], "internal/zzverif/hveneers", test_pkg_name="hveneers", needs_leaf=True, repeat=200, judge="prefix:C14")],
+    "runs": [Run("veneers", ["./internal/zzverif/hveneers"], VENEERS_HARNESS, ["VerifC14ConverterMapping", "VerifC14UnionLists", "VerifC14BuilderChoice", "VerifC14BuilderChoicePartial"], "internal/zzverif/hveneers", test_pkg_name="hveneers", needs_leaf=True, repeat=200, judge="prefix:C14")],
 }
 
 
